@@ -571,7 +571,7 @@ fn run_all(ctx: &mut Ctx) {
 pub static C03: CheckDef = CheckDef {
     id: "C03",
     level: "fault_enumeration",
-    rule: "Fault enumeration with deviation bound 1. Programs: every e2e cairo_code snippet + 24 hand-written programs + 15 hint-targeted programs (u256/u512 division, square roots, modular inverse, felt->int conversions, downcasts, dict squash, arrays, EC, wide mul, signed division), every function with scalar parameters x boundary inputs (quick <=9 vectors, thorough <=49). One honest run (through a StarknetHintProcessor wrapper around the runner's CairoHintProcessor; the real hint is executed with its output cells redirected to scratch cells so its side state stays honest) records the ordered hint occurrences h1..hn and their honest outputs. Then for EVERY occurrence (quick: first 40, thorough: first 200) and EVERY alternative of the menu one run deviates at that occurrence only. Menu per output cell: flipped boolean, v+1, v-1, 0, 1, 2, -v, v+2^128, 2^128-1, 2^128; for pointers: alias of each of the last 3 allocated pointers, ptr+1, integer 0; for pairs: swapped, and consistent re-decompositions (q+1, r-d), (q-1, r+d) for d in {1,2,255,256,2^128}; for DivMod and LinearSplit the hint's inputs are read and every decomposition of the same residue a + kP (k = 1..3; canonical and q-1, r+b) is offered, since the verified relation holds modulo P and only the range checks exclude them; plus the div_rem lattice: bounded_int_div_rem over 6 dividend ranges x 12 divisor ranges placed on both sides of T = (P-1)/2^128 for each of the three verification schemes (KnownSmallRhs / KnownSmallQuotient / KnownSmallLhs); RandomEcPoint's randomness is replaced by a fixed curve point. When, after the deviation, the runner's own implementation of a LATER hint finds its book-keeping inconsistent and panics (dict squash loops), a prover could still answer anything there: the run is repeated with that hint's outputs forced to each value of {0,1,2}, and likewise for a second such hint (12 forced-answer sequences); runs needing a third forced answer are counted inconclusive. Oracle: the deviated run is a VM failure, or Ok with the same value AND gas counter as the honest run; Ok with a different value (or gas) is the violation. observed_outcomes lists (hint kind, outcome) counts: every reached hint kind must show VM failures (vacuity guard). distinct_nontrivial = distinct (program, function, args, occurrence, alternative).",
+    rule: "Fault enumeration with deviation bound 1. Programs: every e2e cairo_code snippet + 24 hand-written programs + 15 hint-targeted programs (u256/u512 division, square roots, modular inverse, felt->int conversions, downcasts, dict squash, arrays, EC, wide mul, signed division), every function with scalar parameters x boundary inputs (quick <=9 vectors, thorough <=49); the bounded_int_div_rem lattice (additionally on a 12 / 60 pair prefix of its relation inputs) and the hint-carrying instantiations of the bounded-integer lattice (downcast between 26 ranges in every relative position, constrain at every kind of boundary; quick: every 2nd, 10 inputs each) on their own boundary inputs. One honest run (through a StarknetHintProcessor wrapper around the runner's CairoHintProcessor; the real hint is executed with its output cells redirected to scratch cells so its side state stays honest) records the ordered hint occurrences h1..hn and their honest outputs. Then for EVERY occurrence (quick: first 40, thorough: first 200) and EVERY alternative of the menu one run deviates at that occurrence only. Menu per output cell: flipped boolean, v+1, v-1, 0, 1, 2, -v, v+2^128, 2^128-1, 2^128; for pointers: alias of each of the last 3 allocated pointers, ptr+1, integer 0; for pairs: swapped, and consistent re-decompositions (q+1, r-d), (q-1, r+d) for d in {1,2,255,256,2^128}; for DivMod and LinearSplit the hint's inputs are read and every decomposition of the same residue a + kP (k = 1..3; canonical and q-1, r+b) is offered, since the verified relation holds modulo P and only the range checks exclude them; plus the div_rem lattice: bounded_int_div_rem over 6 dividend ranges x 12 divisor ranges placed on both sides of T = (P-1)/2^128 for each of the three verification schemes (KnownSmallRhs / KnownSmallQuotient / KnownSmallLhs); RandomEcPoint's randomness is replaced by a fixed curve point. When, after the deviation, the runner's own implementation of a LATER hint finds its book-keeping inconsistent and panics (dict squash loops), a prover could still answer anything there: the run is repeated with that hint's outputs forced to each value of {0,1,2}, and likewise for a second such hint (12 forced-answer sequences); runs needing a third forced answer are counted inconclusive. Oracle: the deviated run is a VM failure, or Ok with the same value AND gas counter as the honest run; Ok with a different value (or gas) is the violation. observed_outcomes lists (hint kind, outcome) counts: every reached hint kind must show VM failures (vacuity guard). distinct_nontrivial = distinct (program, function, args, occurrence, alternative).",
     assumptions: &["soundness is judged against cairo-vm's checks (write-once memory, range-check and other builtin validation at end of run), not against a STARK prover", "hints that write through pointers (AssertLeFindSmallArcs, GetCurrentAccessIndex, Felt252DictEntryInit, AllocFelt252Dict, EvalCircuit) are executed honestly in this version", "scratch cells for redirected outputs live at ap+3000.. and are assumed unused by the small programs"],
     run: run_all,
     stack_mb: 32,
